@@ -262,6 +262,19 @@ func (db *DB) ResyncFromBlobstor(bs common.Storage, onIterationError func(oid.Ad
 		return fmt.Errorf("could not flush remaining objects to metabase: %w", err)
 	}
 
+	// Locks and tombstones go last (locks first): all their targets and the
+	// targets' parts are indexed by now, so the result does not depend on the
+	// order blobs were enumerated in.
+	for _, deferred := range [][]*object.Object{rh.locks, rh.tombstones} {
+		for len(deferred) > 0 {
+			n := min(len(deferred), resyncBatchSize)
+			if err := db.PutBatch(deferred[:n]); err != nil {
+				return fmt.Errorf("could not put locks and tombstones to metabase: %w", err)
+			}
+			deferred = deferred[n:]
+		}
+	}
+
 	return nil
 }
 
@@ -270,6 +283,12 @@ type resyncHandler struct {
 	onError func(oid.Address, error) error
 	db      *DB
 	batch   []*object.Object
+	// Objects whose effect depends on what is already indexed. A tombstone
+	// processed before (some of) the parts of its target makes these parts
+	// skipped or left unmarked, and GC never reclaims them then. They are
+	// postponed until every other object is indexed.
+	locks      []*object.Object
+	tombstones []*object.Object
 }
 
 func (rh *resyncHandler) handle(addr oid.Address, data []byte) error {
@@ -290,6 +309,16 @@ func (rh *resyncHandler) handle(addr oid.Address, data []byte) error {
 			zap.String("unmarshalled", objAddrStr),
 			zap.String("expected", expectedAddrStr),
 		)
+	}
+
+	switch obj.Type() {
+	case object.TypeLock:
+		rh.locks = append(rh.locks, obj)
+		return nil
+	case object.TypeTombstone:
+		rh.tombstones = append(rh.tombstones, obj)
+		return nil
+	default:
 	}
 
 	rh.batch = append(rh.batch, obj)
